@@ -175,6 +175,11 @@ theorem discFail_inv (w : World) (ctx : StepCtx) (h : P w.sess) : P (w.discFail 
   · exact h
   · simpa using hc.handleDisconnect _ h
 
+theorem failStep_inv (w : World) (ctx : StepCtx) (st : Outbound.Step) (h : P w.sess) : P (w.failStep ctx st).sess := by
+  rcases failStep_cases w ctx st with e | e <;> rw [e]
+  · exact h
+  · simpa using hc.handleDisconnect _ h
+
 theorem step_stepReturned (fuel : Nat) (ih : MachineInv P fuel) :
     ∀ w ctx adv, P w.sess → P (stepReturned (fuel + 1) w ctx adv).sess := by
   intro w ctx adv h
@@ -219,7 +224,7 @@ theorem step_performStep (fuel : Nat) (ih : MachineInv P fuel) :
   obtain ⟨_, _, i3, i4, i5, _⟩ := ih
   simp only [performStep]
   split
-  · simpa using discFail_inv hc _ _ h
+  · simpa using failStep_inv hc _ _ _ h
   · exact i5 _ _ _ h
   · split
     · simpa using discFail_inv hc _ _ h
